@@ -411,7 +411,8 @@ INT_NAMES = re.compile(r"\b(?:boundary|counter|start|end|idx|index|i|j|n|pos|pos
 FLOAT_HINT = re.compile(r"\d\.\d|\bf64\b|\bf32\b|\bas_f64\b|\.abs\(\)|\.round\(\)|\.fract\(\)|EPSILON|\.x\b|\.y\b|_scale\b|_offset\b")
 
 # functions that contain no site but whose conditions are what makes a site elsewhere unreachable
-EXTRA_GUARD_FNS = {"src/layer.rs": ["fn plain_name"], "src/glyph/mod.rs": ["impl Image::new"]}
+EXTRA_GUARD_FNS = {"src/layer.rs": ["fn plain_name"], "src/glyph/mod.rs": ["impl Image::new"],
+                   "src/fontinfo.rs": ["impl NonNegativeIntegerOrFloat::new"]}
 
 MACROS = r"(?<![\w])(panic|unreachable|assert|assert_eq|assert_ne|todo|unimplemented)!\s*[\(\[\{]"
 METHODS_ALWAYS = ("split_at", "split_at_mut", "split_off", "truncate", "drain", "swap_remove", "rotate_left", "rotate_right",
